@@ -31,6 +31,7 @@ Step ==
        [] e.ev = "arrive"   -> arrived' = e.p /\ UNCHANGED <<msgs, delivered, fired>>
        [] e.ev = "read"     -> fired' = FALSE /\ UNCHANGED <<msgs, arrived, delivered>>
        [] e.ev = "fire"     -> fired' = TRUE /\ UNCHANGED <<msgs, arrived, delivered>>
+       [] e.ev = "oldclosed" -> UNCHANGED <<msgs, arrived, delivered, fired>>     \* nothing to do with this connection
        [] e.ev = "stuck"    -> /\ Report("NoNeedlessBlock", FALSE)      \* neither returned nor waiting on the socket
                                /\ UNCHANGED <<msgs, arrived, delivered, fired>>
        [] e.ev = "pend"     -> /\ Report("NoNeedlessBlock", Avail(0, arrived) <= delivered)
